@@ -568,441 +568,3 @@ func Valuation(as map[string]bool) string {
 	}
 	return "{" + strings.Join(s, ", ") + "}"
 }
-
-// ---------------------------------------------------------------------------
-// flag-tracking reachability
-
-// Env is the known value of boolean locals.
-type Env map[types.Object]bool
-
-func (e Env) key() string {
-	var s []string
-	for o, v := range e {
-		s = append(s, fmt.Sprintf("%s@%d=%v", o.Name(), o.Pos(), v))
-	}
-	sort.Strings(s)
-	return strings.Join(s, ",")
-}
-
-func (e Env) clone() Env {
-	c := Env{}
-	for k, v := range e {
-		c[k] = v
-	}
-	return c
-}
-
-func (x *X) boolLocal(e ast.Expr) types.Object { return BoolLocal(x.Info, e) }
-
-// BoolLocal returns the boolean local variable denoted by e, or nil.
-func BoolLocal(info *types.Info, e ast.Expr) types.Object {
-	id, ok := ast.Unparen(e).(*ast.Ident)
-	if !ok {
-		return nil
-	}
-	v, ok := core.ObjOf(info, id).(*types.Var)
-	if !ok || v.IsField() || v.Pkg() == nil || v.Parent() == v.Pkg().Scope() {
-		return nil
-	}
-	if b, ok := v.Type().Underlying().(*types.Basic); !ok || b.Kind() != types.Bool {
-		return nil
-	}
-	return v
-}
-
-// eval3 evaluates cond under env: 1 true, -1 false, 0 unknown.
-func (x *X) eval3(e ast.Expr, env Env) int {
-	e = ast.Unparen(e)
-	if bv, ok := BoolConst(x.Info, e); ok {
-		if bv {
-			return 1
-		}
-		return -1
-	}
-	if o := x.boolLocal(e); o != nil {
-		if v, ok := env[o]; ok {
-			if v {
-				return 1
-			}
-			return -1
-		}
-		return 0
-	}
-	switch c := e.(type) {
-	case *ast.UnaryExpr:
-		if c.Op == token.NOT {
-			return -x.eval3(c.X, env)
-		}
-	case *ast.BinaryExpr:
-		a, b := x.eval3(c.X, env), x.eval3(c.Y, env)
-		switch c.Op {
-		case token.LAND:
-			if a == -1 || b == -1 {
-				return -1
-			}
-			if a == 1 && b == 1 {
-				return 1
-			}
-		case token.LOR:
-			if a == 1 || b == 1 {
-				return 1
-			}
-			if a == -1 && b == -1 {
-				return -1
-			}
-		case token.EQL, token.NEQ:
-			if a != 0 && b != 0 {
-				if (a == b) == (c.Op == token.EQL) {
-					return 1
-				}
-				return -1
-			}
-		}
-	}
-	return 0
-}
-
-// step applies the effect of executing node n on env.
-func (x *X) step(n ast.Node, env Env) {
-	assign := func(l ast.Expr, r ast.Expr) {
-		o := x.boolLocal(l)
-		if o == nil {
-			return
-		}
-		if r == nil {
-			delete(env, o)
-			return
-		}
-		switch x.eval3(r, env) {
-		case 1:
-			env[o] = true
-		case -1:
-			env[o] = false
-		default:
-			delete(env, o)
-		}
-	}
-	switch s := n.(type) {
-	case *ast.AssignStmt:
-		for i, l := range s.Lhs {
-			if len(s.Lhs) == len(s.Rhs) && (s.Tok == token.ASSIGN || s.Tok == token.DEFINE) {
-				assign(l, s.Rhs[i])
-			} else {
-				assign(l, nil)
-			}
-		}
-	case *ast.DeclStmt:
-		gd, ok := s.Decl.(*ast.GenDecl)
-		if !ok {
-			return
-		}
-		for _, sp := range gd.Specs {
-			vs, ok := sp.(*ast.ValueSpec)
-			if !ok {
-				continue
-			}
-			for i, name := range vs.Names {
-				o := x.boolLocal(name)
-				if o == nil {
-					continue
-				}
-				switch {
-				case len(vs.Values) == 0:
-					env[o] = false
-				case len(vs.Values) == len(vs.Names):
-					assign(name, vs.Values[i])
-				default:
-					delete(env, o)
-				}
-			}
-		}
-	}
-}
-
-// ReachQuery is a flag-tracking path search.
-type ReachQuery struct {
-	From     cfgq.Point // search starts after this point
-	FromSucc int        // when >= 0: start on successor FromSucc of From.B instead
-	Env      Env
-	Target   func(ast.Node) bool
-	Cut      func(ast.Node) bool               // the path ends (without success) before executing such a node
-	CutBlock func(*cfg.Block) bool             // the path ends when it enters such a block
-	CutEdge  func(b *cfg.Block, succ int) bool // such an edge is not followed
-}
-
-// Reach returns a witness path to a target node on which the tracked boolean
-// locals never contradict the branch decisions taken, or nil.
-func (x *X) Reach(q ReachQuery) []string {
-	type state struct {
-		b    *cfg.Block
-		i    int
-		env  Env
-		prev *state
-		note string
-	}
-	seen := map[string]bool{}
-	var queue []*state
-	push := func(b *cfg.Block, i int, env Env, prev *state, note string) {
-		k := fmt.Sprintf("%d/%d/%s", b.Index, i, env.key())
-		if seen[k] {
-			return
-		}
-		seen[k] = true
-		queue = append(queue, &state{b, i, env, prev, note})
-	}
-	env0 := q.Env.clone()
-	if q.FromSucc >= 0 {
-		for _, f := range x.EdgeFacts(q.From.B, q.FromSucc) {
-			if o := x.boolLocal(f.Expr); o != nil {
-				env0[o] = f.Val
-			}
-		}
-		push(q.From.B.Succs[q.FromSucc], 0, env0, nil, "")
-	} else {
-		push(q.From.B, q.From.I+1, env0, nil, "")
-	}
-	witness := func(s *state, last ast.Node) []string {
-		var chain []*state
-		for y := s; y != nil; y = y.prev {
-			chain = append([]*state{y}, chain...)
-		}
-		var out []string
-		for _, y := range chain {
-			d := fmt.Sprintf("block %d (%s)", y.b.Index, y.b.Kind)
-			if y.i < len(y.b.Nodes) {
-				d += fmt.Sprintf(" L%d: %s", x.G.Fset.Position(y.b.Nodes[y.i].Pos()).Line, core.NodeString(x.G.Fset, y.b.Nodes[y.i]))
-			}
-			if y.note != "" {
-				d += "  [" + y.note + "]"
-			}
-			out = append(out, d)
-		}
-		out = append(out, fmt.Sprintf("reaches L%d: %s", x.G.Fset.Position(last.Pos()).Line, core.NodeString(x.G.Fset, last)))
-		return out
-	}
-	for len(queue) > 0 && len(seen) < 50000 {
-		s := queue[0]
-		queue = queue[1:]
-		if q.CutBlock != nil && s.prev != nil && q.CutBlock(s.b) {
-			continue
-		}
-		env := s.env.clone()
-		cond := x.Cond(s.b)
-		cut := false
-		for i := s.i; i < len(s.b.Nodes); i++ {
-			n := s.b.Nodes[i]
-			if q.Target != nil && q.Target(n) {
-				return witness(s, n)
-			}
-			if q.Cut != nil && q.Cut(n) {
-				cut = true
-				break
-			}
-			if cond != nil && i == len(s.b.Nodes)-1 {
-				break
-			}
-			x.step(n, env)
-		}
-		if cut {
-			continue
-		}
-		for si, t := range s.b.Succs {
-			if q.CutEdge != nil && q.CutEdge(s.b, si) {
-				continue
-			}
-			e2 := env
-			note := ""
-			if cond != nil && len(s.b.Succs) == 2 {
-				v := x.eval3(cond, env)
-				if v == 1 && si == 1 || v == -1 && si == 0 {
-					continue
-				}
-				e2 = env.clone()
-				for _, f := range x.Facts(cond, si == 0) {
-					if o := x.boolLocal(f.Expr); o != nil {
-						e2[o] = f.Val
-					}
-				}
-				note = fmt.Sprintf("%s is %v", core.NodeString(x.G.Fset, cond), si == 0)
-			}
-			push(t, 0, e2, s, note)
-		}
-	}
-	return nil
-}
-
-// ---------------------------------------------------------------------------
-// definitions of locals
-
-// Def is a definition site of a local variable.
-type Def struct {
-	Rhs   ast.Expr       // assigned expression (the call for a multi-value assignment; the ranged expression for a range variable)
-	Index int            // result index for a multi-value assignment, -1 otherwise
-	Range *ast.RangeStmt // set when the variable is a range key/value
-	IsKey bool
-	Stmt  ast.Node
-}
-
-// DefsOf lists every definition/assignment of obj under root (closures included).
-func DefsOf(info *types.Info, root ast.Node, obj types.Object) []Def {
-	var out []Def
-	is := func(e ast.Expr) bool {
-		id, ok := ast.Unparen(e).(*ast.Ident)
-		return ok && obj != nil && core.ObjOf(info, id) == obj
-	}
-	ast.Inspect(root, func(n ast.Node) bool {
-		switch s := n.(type) {
-		case *ast.AssignStmt:
-			for i, l := range s.Lhs {
-				if !is(l) {
-					continue
-				}
-				switch {
-				case s.Tok != token.ASSIGN && s.Tok != token.DEFINE:
-					out = append(out, Def{Index: -1, Stmt: s})
-				case len(s.Lhs) == len(s.Rhs):
-					out = append(out, Def{Rhs: s.Rhs[i], Index: -1, Stmt: s})
-				default:
-					out = append(out, Def{Rhs: s.Rhs[0], Index: i, Stmt: s})
-				}
-			}
-		case *ast.ValueSpec:
-			for i, name := range s.Names {
-				if !is(name) {
-					continue
-				}
-				switch {
-				case len(s.Values) == len(s.Names):
-					out = append(out, Def{Rhs: s.Values[i], Index: -1, Stmt: s})
-				case len(s.Values) == 1:
-					out = append(out, Def{Rhs: s.Values[0], Index: i, Stmt: s})
-				default:
-					out = append(out, Def{Index: -1, Stmt: s})
-				}
-			}
-		case *ast.RangeStmt:
-			if s.Key != nil && is(s.Key) {
-				out = append(out, Def{Rhs: s.X, Index: -1, Range: s, IsKey: true, Stmt: s})
-			}
-			if s.Value != nil && is(s.Value) {
-				out = append(out, Def{Rhs: s.X, Index: -1, Range: s, Stmt: s})
-			}
-		case *ast.IncDecStmt:
-			if is(s.X) {
-				out = append(out, Def{Index: -1, Stmt: s})
-			}
-		}
-		return true
-	})
-	return out
-}
-
-// SingleDef returns the only definition of the local denoted by e.
-func SingleDef(info *types.Info, root ast.Node, e ast.Expr) (Def, bool) {
-	id, ok := ast.Unparen(e).(*ast.Ident)
-	if !ok {
-		return Def{}, false
-	}
-	v, ok := core.ObjOf(info, id).(*types.Var)
-	if !ok || v.IsField() || v.Pkg() == nil || v.Parent() == v.Pkg().Scope() {
-		return Def{}, false
-	}
-	ds := DefsOf(info, root, v)
-	if len(ds) != 1 {
-		return Def{}, false
-	}
-	return ds[0], true
-}
-
-// Resolve follows single definitions of locals (1:1 assignments only) up to
-// depth steps and returns the defining expression.
-func Resolve(info *types.Info, root ast.Node, e ast.Expr, depth int) ast.Expr {
-	for ; depth > 0; depth-- {
-		d, ok := SingleDef(info, root, e)
-		if !ok || d.Rhs == nil || d.Index != -1 || d.Range != nil {
-			break
-		}
-		e = d.Rhs
-	}
-	return ast.Unparen(e)
-}
-
-// MentionsResolved reports whether e, or the single definition of a local
-// mentioned in e (transitively, depth steps), mentions obj.
-func MentionsResolved(info *types.Info, root ast.Node, e ast.Node, obj types.Object, depth int) bool {
-	if core.Mentions(info, e, obj) {
-		return true
-	}
-	if depth == 0 {
-		return false
-	}
-	found := false
-	ast.Inspect(e, func(n ast.Node) bool {
-		id, ok := n.(*ast.Ident)
-		if !ok || found {
-			return !found
-		}
-		if d, ok := SingleDef(info, root, id); ok && d.Rhs != nil {
-			if MentionsResolved(info, root, d.Rhs, obj, depth-1) {
-				found = true
-			}
-		}
-		return true
-	})
-	return found
-}
-
-// IsConfField reports whether e selects field `field` of the configuration
-// singleton (conf.Options.<field>); field "" accepts any and returns its name.
-func IsConfField(info *types.Info, e ast.Expr, field string) (string, bool) {
-	sel, ok := ast.Unparen(e).(*ast.SelectorExpr)
-	if !ok {
-		return "", false
-	}
-	f := core.FieldOf(info, sel)
-	if f == nil || f.Pkg() == nil || f.Pkg().Path() != core.Module+"/redis-shake/configure" {
-		return "", false
-	}
-	if field != "" && f.Name() != field {
-		return "", false
-	}
-	return f.Name(), true
-}
-
-// Bodies lists the body of fn and of all function literals nested in it.
-type Body struct {
-	Name string
-	Root ast.Node // *ast.BlockStmt of the declaration or *ast.FuncLit
-	G    *cfgq.Graph
-}
-
-// BodiesOf returns the declaration body and every nested literal with graphs.
-func BodiesOf(p *core.Program, fn *core.Fn) []Body {
-	out := []Body{{Name: fn.Decl.Name.Name, Root: fn.Decl.Body, G: cfgq.Of(p, fn)}}
-	k := 0
-	ast.Inspect(fn.Decl.Body, func(n ast.Node) bool {
-		if fl, ok := n.(*ast.FuncLit); ok {
-			k++
-			out = append(out, Body{Name: fmt.Sprintf("%s$%d", fn.Decl.Name.Name, k), Root: fl, G: cfgq.OfLit(p, fn.Pkg.TypesInfo, fl)})
-		}
-		return true
-	})
-	return out
-}
-
-// BreaksLoop reports whether the unlabelled `break` br, found under the body of
-// a loop, leaves that loop (and not a nested switch, select or loop). A
-// labelled break is assumed to leave it.
-func BreaksLoop(body *ast.BlockStmt, br *ast.BranchStmt) bool {
-	if br.Label != nil {
-		return true
-	}
-	path := core.PathTo(body, br)
-	for _, n := range path {
-		switch n.(type) {
-		case *ast.SwitchStmt, *ast.TypeSwitchStmt, *ast.SelectStmt, *ast.ForStmt, *ast.RangeStmt:
-			return false
-		}
-	}
-	return len(path) > 0
-}
